@@ -112,10 +112,22 @@ PROPS = {
     "C05": dict(
         level="other",
         bounded=_both(_ops("C05"), _mod("pure")),
-        trusted=TB,
-        assumed=["L5: CSP over minimal correction sets iff existence of a violating c-representation"],
-        explanation="Decided by the bounded oracle comparison (z3 search for a c-representation violating the query over explicit "
-        "worlds); Engine P contributes general_inference (trivial queries) only.",
+        lemmas=["HoldAll", "SumCong.Eta", "mem.at.Int", "mem.snoc.Int", "mem.nil.Int"],
+        trusted=TB + ["TB-ifml", "TB-sat", "TB-time"],
+        assumed=[
+            "MCS: minimal_correction_subsets enumerates the inclusion-minimal falsified key sets over the hard clauses' worlds (bounded: modules pure, c15)",
+            "Inv_es: the clause lists of every base key and of the query denote ver / fal / nf (C15; bounded)",
+            "L5: the constraint system over minimal correction sets has a solution violating the query iff some c-representation does (Beierle et al. 2021, von Berg et al. 2024)",
+            "L-sumperm: a finite sum does not depend on the order in which a correction set is listed",
+            "aliasing: different entries of the epistemic state hold different container objects",
+        ],
+        explanation="Engine P proves the whole constraint-system side of c-inference from the real source: makeSummation, freshVars, "
+        "minima_encoding, CInference.encoding, translate (the list of pysmt constraints holds under an integer assignment exactly when the "
+        "base's constraint system does, for arbitrary distinct integer keys), compile_constraint / compile_and_encode_query (which WCNF goes "
+        "to the assumed MCS enumeration for which key and where the result is stored; the query's constraints incl. the three "
+        "empty-side cases), _inference (answer = the combined system has no solution) and _preprocess_belief_base. The MaxSAT enumeration, "
+        "the CNFs and the link to c-representations over worlds are assumed; the bounded oracle comparison (z3 search for a violating "
+        "c-representation over explicit worlds) decides the property end to end.",
     ),
     "C06": dict(
         level="proof",
@@ -222,10 +234,12 @@ PROPS = {
     "C17": dict(
         level="other",
         bounded=_mod("c17"),
-        trusted=TB + ["TB-z3"],
+        lemmas=["HoldAll", "SumCong.Eta", "SumCong.Gm", "SumCong.Gp", "SumIV.concat"],
+        trusted=TB + ["TB-z3", "TB-ifml"],
         assumed=["existence of c-representations for strongly consistent bases"],
-        explanation="Engine P proves c_vec2ocf (rank = sum of impacts of falsified conditionals, keys 1..n); construction, "
-        "Pareto-minimality and front enumeration are compared with brute force (bounded).",
+        explanation="Engine P proves c_vec2ocf (rank = sum of impacts of falsified conditionals, keys 1..n) and the constraint systems "
+        "the impact vectors are solutions of (c-inference: minima_encoding, encoding, translate; c-revision: symbolize_minima_expression, "
+        "encoding, translate_to_csp); construction, Pareto-minimality and front enumeration are compared with brute force (bounded).",
     ),
     "C18": dict(
         level="other",
@@ -238,10 +252,20 @@ PROPS = {
     "C19": dict(
         level="other",
         bounded=_mod("c19"),
-        trusted=["TB-z3", "TB-py"],
-        assumed=[],
-        explanation="Decided by the bounded module (acceptance of the revised ranking over explicit worlds, existence search, Pareto "
-        "minimality, agreement of the three compilations, add/remove histories).",
+        lemmas=["HoldAll", "SumCong.Gm", "SumCong.Gp", "SumIV.concat"],
+        trusted=["TB-z3", "TB-py", "TB-ifml"],
+        assumed=[
+            "_gamma memoises Symbol(name, INT)",
+            "precondition of translate_to_csp: no fixed_gamma_* values (negated carve-out of the known finding KF-C19-fixed-gamma)",
+            "L19: gamma-_k - gamma+_k > mv_k - mf_k for the minima of the compilation entries iff the revised ranking accepts conditional k (arithmetic of minima)",
+            "the three compilations list, per conditional, exactly the verifying / falsifying worlds with their rank and the other conditionals they verify / falsify (bounded: agreement of the compilations with a brute force)",
+        ],
+        explanation="Engine P proves the constraint-system side of c-revision from the real source: symbolize_minima_expression (every "
+        "compilation entry becomes rank + sum of gamma- over rejected + sum of gamma+ over accepted, gamma_plus_zero honoured), encoding "
+        "(minima, the skip rule, gamma- - gamma+ > mv - mf) and translate_to_csp (the pysmt constraint list holds under an assignment "
+        "exactly when the revision's constraint system does). The world-level compilations, the z3 search (Pareto) and histories of the "
+        "incremental model are decided by the bounded module (acceptance of the revised ranking over explicit worlds, existence search, "
+        "Pareto minimality, agreement of the three compilations, add/remove histories).",
     ),
     "C20": dict(
         level="other",
